@@ -8,6 +8,7 @@ import (
 	"path/filepath"
 	"sort"
 	"strings"
+	"sync"
 	"testing"
 	"testing/synctest"
 	"time"
@@ -575,6 +576,142 @@ func runFaults(t *testing.T, run *vt.Run, c vt.CaseID, fc faultCase) {
 	})
 }
 
+// ---- store faults by call ordinal: the k-th .. (k+l-1)-th CAS call of the victim is rejected ---------
+
+type callFault struct {
+	Phase   string        `json:"phase"` // join | join-observe | basic-join | leaving
+	K       int           `json:"first_rejected_cas_call"`
+	L       int           `json:"rejected_cas_calls"`
+	Observe time.Duration `json:"observe_period"`
+}
+
+// runCallFaults rejects a run of consecutive CAS calls of a lifecycler while it joins (or leaves). A lifecycler
+// whose service survives the window (the start-up writes are allowed to fail the service) must, three heartbeats
+// after the window, have published what it remembers: ACTIVE with its full token list after a join, LEAVING with
+// its tokens while it lingers in its final sleep.
+func runCallFaults(t *testing.T, run *vt.Run, c vt.CaseID, cf callFault) (casCalls int) {
+	synctest.Test(t, func(t *testing.T) {
+		st := recstore.New(ring.GetCodec())
+		st.RecordGets = false
+		cfg := lcsim.Cfg{ID: "victim-1", Kind: "full", NumTokens: 4, Heartbeat: 5 * time.Second, Zone: "z0", Seed: 7, JoinAfter: time.Second, Observe: cf.Observe, RegisterState: ring.ACTIVE}
+		if cf.Phase == "basic-join" {
+			cfg.Kind = "basic"
+		}
+		if cf.Phase == "leaving" {
+			cfg.FinalSleep = 40 * time.Second
+		}
+		other, _ := lcsim.New(st, lcsim.Cfg{ID: "other-2", Kind: "full", NumTokens: 4, Heartbeat: 5 * time.Second, Zone: "z1", Seed: 9}, 1)
+		_ = other.Start()
+		time.Sleep(8 * time.Second)
+		synctest.Wait()
+		v, err := lcsim.New(st, cfg, 1)
+		if err != nil {
+			run.Inconclusive(err.Error())
+			return
+		}
+		var journal []string
+		viol := func(sig, what string, extra map[string]any) {
+			d := map[string]any{"case": cf, "journal": journal}
+			for k, x := range extra {
+				d[k] = x
+			}
+			run.Violation(c, cfg.Kind+"/call-faults/"+sig, what, d)
+		}
+		defer func() {
+			v.Stop()
+			other.Stop()
+			synctest.Wait()
+			time.Sleep(2 * time.Minute)
+			synctest.Wait()
+			st.Release()
+		}()
+		var mu sync.Mutex
+		calls, armedAt, rejected := 0, 0, 0
+		armed := cf.Phase != "leaving"
+		v.Handle.SetFaults(recstore.Faults{FailCAS: func(n int) bool {
+			mu.Lock()
+			defer mu.Unlock()
+			calls = n
+			if !armed || cf.K == 0 {
+				return false
+			}
+			if armedAt == 0 {
+				armedAt = n
+			}
+			if rel := n - armedAt + 1; rel >= cf.K && rel < cf.K+cf.L {
+				rejected++
+				journal = append(journal, fmt.Sprintf("t=%v CAS call %d of the victim rejected", time.Since(t0), n))
+				return true
+			}
+			return false
+		}})
+		_ = v.Start()
+		read := func() (ring.InstanceDesc, bool) {
+			x, _ := st.Client("harness-read").Get(context.Background(), lcsim.Key)
+			e, ok := ring.GetOrCreateRingDesc(x).Ingesters["victim-1"]
+			return e, ok
+		}
+		wantState := ring.ACTIVE
+		settle := cfg.JoinAfter + time.Duration(cf.L+3)*cf.Observe + time.Duration(cf.L+3)*cfg.Heartbeat + 5*time.Second
+		if cf.Phase == "leaving" {
+			time.Sleep(20 * time.Second)
+			synctest.Wait()
+			if e, ok := read(); !ok || e.State != ring.ACTIVE {
+				run.Inconclusive(fmt.Sprintf("victim not active before leaving: %+v", e))
+				return
+			}
+			mu.Lock()
+			armed = true
+			mu.Unlock()
+			go v.Stop() // lingers LEAVING for the final sleep, heartbeating
+			wantState = ring.LEAVING
+			settle = time.Duration(cf.L+3) * cfg.Heartbeat
+			journal = append(journal, "victim asked to stop (final sleep 40s)")
+		}
+		time.Sleep(settle)
+		synctest.Wait()
+		mu.Lock()
+		casCalls = calls
+		rej := rejected
+		mu.Unlock()
+		if cf.K == 0 {
+			return // dry run: counts the CAS calls of the phase
+		}
+		run.EvalH(vt.Hash64(fmt.Sprintf("%+v", cf)), rej > 0)
+		if rej == 0 {
+			run.Count("call_fault_not_reached", 1)
+			return
+		}
+		run.Count("call_faults_reached", 1)
+		svc := v.Svc().State()
+		if cf.Phase != "leaving" && svc != services.Running {
+			// a rejected start-up write (registration, token pick) fails the service: outside the clause
+			run.Count("call_fault_failed_startup", 1)
+			run.Distinct("call-fault-startup-failure|" + fmt.Sprintf("%s|%d", cf.Phase, cf.K))
+			return
+		}
+		e, ok := read()
+		det := map[string]any{"entry": fmt.Sprintf("present=%v %+v", ok, e), "service": svc.String(), "lifecycler_state": v.State().String()}
+		if !ok {
+			viol("not-re-registered", "three heartbeats after the rejected writes the entry is missing", det)
+			return
+		}
+		if e.State != wantState {
+			viol("state-not-remembered", fmt.Sprintf("three heartbeats after the rejected writes the ring shows %v, expected %v", e.State, wantState), det)
+		}
+		if len(e.Tokens) != cfg.NumTokens {
+			viol("tokens-not-remembered", fmt.Sprintf("the ring shows %d tokens, configured %d", len(e.Tokens), cfg.NumTokens), det)
+		}
+		if cf.Phase != "leaving" && v.State() != ring.ACTIVE {
+			viol("state-not-remembered", fmt.Sprintf("the lifecycler reports %v after joining", v.State()), det)
+		}
+		if e.Timestamp < time.Now().Add(-2*cfg.Heartbeat-time.Second).Unix() {
+			viol("heartbeat-not-resumed", fmt.Sprintf("heartbeat stamp %d is older than two periods at %d", e.Timestamp, time.Now().Unix()), det)
+		}
+	})
+	return
+}
+
 func TestC09(t *testing.T) {
 	run := vt.NewRun("C09", "fault_enumeration")
 	run.SetRule("case = (scenario in {fresh join, join with observe period, restart from tokens file, graceful leave with and without unregistering, token claim}, lifecycler kind, store kind in {recording store, gossip store on a detached node}, crash point = before or after the commit of the k-th store write of the victim, k = 1..W with W counted by a dry run; plus, per first crash point, a second crash of the restarted incarnation before/after its 1st..3rd write - one seeded choice in quick, all six in thorough - after which a third incarnation is judged against the record at the second crash); the victim is parked at the crash point, a new lifecycler with the same identity is started and after join-after + observe + 3 heartbeat periods (+12 s) must be ACTIVE with the configured token count, the tokens and registration time the ring (or, if the ring has none, the tokens file) recorded at the crash, having passed through PENDING if it died JOINING, without sharing a token with another instance; the tokens file is parsed after every virtual second. Plus fault windows on the recording store: windows of failing Get/CAS of every start x length on a grid, a wipe of the ring key inside or outside the window, a wipe during leaving; two heartbeats after the window the entry must be back with the remembered state and tokens, a fresh registration time iff it had vanished, and fresh heartbeats. The crash-point space per scenario is enumerated completely. non-trivial: every reached crash point / every fault case; distinct by case; distinct crash states counted.")
@@ -662,6 +799,28 @@ func TestC09(t *testing.T) {
 	run.ForEachT(t, "faults", len(fcs), func(t *testing.T, c vt.CaseID, rng *rand.Rand, s *vt.Slot) {
 		s.Enter(c, "crash/faults")
 		runFaults(t, run, c, fcs[c.Idx])
+		s.Leave()
+	})
+	// rejected CAS calls by ordinal, while joining and while leaving
+	var cfs []callFault
+	for _, ph := range []callFault{{Phase: "join"}, {Phase: "join-observe", Observe: 3 * time.Second}, {Phase: "basic-join"}, {Phase: "leaving"}} {
+		w := runCallFaults(t, run, vt.CaseID{Gen: "dry-calls", Seed: vt.Seed()}, ph)
+		run.Count("cas_calls_counted", int64(w))
+		if ph.Phase == "leaving" {
+			w = 4
+		}
+		for k := 1; k <= w && k <= 8; k++ {
+			for _, l := range []int{1, 2, 4} {
+				x := ph
+				x.K, x.L = k, l
+				cfs = append(cfs, x)
+			}
+		}
+	}
+	run.SetExtra("call_fault_cases_enumerated", len(cfs))
+	run.ForEachT(t, "call-faults", len(cfs), func(t *testing.T, c vt.CaseID, rng *rand.Rand, s *vt.Slot) {
+		s.Enter(c, "crash/call-faults")
+		runCallFaults(t, run, c, cfs[c.Idx])
 		s.Leave()
 	})
 	_ = strings.Join
